@@ -9,6 +9,10 @@
 (*                                  call) whose channel was not closed when    *)
 (*                                  Close returned                             *)
 (*   quiescent {final} / stuck {n}  as in BcastContract                        *)
+(*   lateclosed {s}                 end of run: the channel of subscriber s -   *)
+(*                                  whose Subscribe overlapped Close - was open  *)
+(*                                  when Close returned and is closed now: it    *)
+(*                                  had been accepted, so Close returned early  *)
 (* Ticks are 100 µs; the processor may run an item up to 5 ticks early.       *)
 EXTENDS Integers, Sequences, FiniteSets, TLC
 
@@ -94,4 +98,5 @@ CNext(c, e) ==
          [] e.ev = "close_ret"  -> CCloseRet(c, e)
          [] e.ev = "quiescent"  -> CQuiescent(c, e)
          [] e.ev = "stuck"      -> CStuck(c, e)
+         [] e.ev = "lateclosed" -> Bad("Close returned while an accepted subscriber channel was still open")
 =============================================================================
